@@ -21,6 +21,13 @@
 (*                          at AfixCut.  The keys are plain strings: a word that  *)
 (*                          ends in the letters OOR2 feeds the same counter as   *)
 (*                          the one-letter words (modelled as it is)             *)
+(*             trainsents.txt / trainsents.conll (testsents.* in test mode)      *)
+(*                          one line per kept tree: its words (case kept);       *)
+(*                          one block per kept tree: a row per word - position,  *)
+(*                          word (twice), POS POS _ , the position of its head   *)
+(*                          (0 for the root; head-FIRST: the head of a binary    *)
+(*                          node is the head of its left child whatever the      *)
+(*                          bank says), none _ , its category - and a blank line *)
 (* What the code does is modelled, including what a user may not expect         *)
 (* (NotEveryTreeOfTheBankIsLicensed below); no listed property is about this    *)
 (* tool, its conformance is reported, never claimed.                            *)
@@ -29,6 +36,7 @@
 (* operators.                                                                   *)
 EXTENDS Naturals, Sequences, FiniteSets, TLC, Json
 CONSTANTS Cats, Words, MaxTrees, Depth, CatCut, WordCut, AfixCut,
+          Mode,       \* "train" (create_traindata) or "test" (create_testdata: every tree is kept, no table is counted or written)
           SpellOf     \* how a model word is spelled: a function Words -> non-empty sequences of one-character strings
 Failed == "FAILED"
 Reserved == {"*UNKNOWN*", "*START*", "*END*"}
@@ -60,9 +68,18 @@ UnSeq(t) == IF t.k = "L" THEN <<>> ELSE IF t.k = "U" THEN <<<<t.c, t.kids[1].c>>
 (* `failed`: the test in the code is `tree.word != 'FAILED'`, and the word of an inner node is the words of its leaves joined by  *)
 (* blanks - so a unary chain over one leaf FAILED is dropped as well as the bare leaf; words are counted lower-cased             *)
 Lower(w) == CASE w = Failed -> "failed" [] w = "OOR2" -> "oor2" [] OTHER -> w        \* the model's other words are lower-case already
+(* head-first dependencies (_get_dependencies): the head word of a node is the head word of its first child; the head word of *)
+(* the second child of a binary node depends on it; the root's head word depends on 0                                          *)
+RECURSIVE Arcs(_, _)
+Arcs(t, off) == IF t.k = "L" THEN [h |-> off + 1, n |-> 1, a |-> {}]
+                ELSE IF t.k = "U" THEN Arcs(t.kids[1], off)
+                ELSE LET l == Arcs(t.kids[1], off)
+                         r == Arcs(t.kids[2], off + l.n)
+                     IN [h |-> l.h, n |-> l.n + r.n, a |-> l.a \cup r.a \cup {<<r.h, l.h>>}]
+DepsOf(t) == LET x == Arcs(t, 0) IN [j \in 1..x.n |-> IF j = x.h THEN 0 ELSE (CHOOSE p \in x.a : p[1] = j)[2]]
 Flat(t) == LET ls == LeafSeq(t) IN
            [failed |-> Len(ls) = 1 /\ ls[1][2] = Failed, leaves |-> [j \in DOMAIN ls |-> <<ls[j][1], Lower(ls[j][2]), Spell(ls[j][2])>>],
-            bins |-> BinSeq(t), uns |-> UnSeq(t)]
+            bins |-> BinSeq(t), uns |-> UnSeq(t), deps |-> DepsOf(t)]
 
 VARIABLES bank,      \* the file: a sequence of flat projections
           pc, kept, i, catn, wordn, seenn, unn, pren, sufn, nsamples, out
@@ -70,7 +87,7 @@ vars == <<bank, pc, kept, i, catn, wordn, seenn, unn, pren, sufn, nsamples, out>
 
 SeqsUpTo(S, n) == UNION {[1..k -> S] : k \in 0..n}
 Empty == [x \in {} |-> 0]
-NoOut == [target |-> Empty, words |-> Empty, seen |-> Empty, unary |-> Empty, prefixes |-> Empty, suffixes |-> Empty]
+NoOut == [target |-> Empty, words |-> Empty, seen |-> Empty, unary |-> Empty, prefixes |-> Empty, suffixes |-> Empty, sents |-> <<>>, conll |-> <<>>]
 InitRest == /\ pc = "load" /\ kept = <<>> /\ i = 1 /\ catn = Empty /\ seenn = Empty /\ unn = Empty
             /\ wordn = [w \in Reserved |-> WordCut] /\ nsamples = 0 /\ out = NoOut
             /\ pren = [a \in AfixReserved |-> AfixCut] /\ sufn = [a \in AfixReserved |-> AfixCut]
@@ -84,7 +101,11 @@ AtLeast(f, n) == [x \in {y \in DOMAIN f : f[y] >= n} |-> f[x]]
 RECURSIVE Cat(_)
 Cat(ss) == IF ss = <<>> THEN <<>> ELSE Head(ss) \o Cat(Tail(ss))
 
-Load == /\ pc = "load" /\ kept' = SelectSeq(bank, LAMBDA f : ~f.failed) /\ pc' = "traverse"
+KeptIn(b, mode) == IF mode = "train" THEN SelectSeq(b, LAMBDA f : ~f.failed) ELSE b
+(* the two files of sentences: words keep their case (the spelling), unlike words.txt *)
+SentOf(f) == [j \in DOMAIN f.leaves |-> Join(f.leaves[j][3])]
+RowsOf(f) == [j \in DOMAIN f.leaves |-> <<j, Join(f.leaves[j][3]), Join(f.leaves[j][3]), "POS", "POS", "_", f.deps[j], "none", "_", f.leaves[j][1]>>]
+Load == /\ pc = "load" /\ kept' = KeptIn(bank, Mode) /\ pc' = IF Mode = "train" THEN "traverse" ELSE "samples"
         /\ UNCHANGED <<bank, i, catn, wordn, seenn, unn, pren, sufn, nsamples, out>>
 Traverse == /\ pc = "traverse" /\ i <= Len(kept)
             /\ LET f == kept[i] IN
@@ -95,13 +116,15 @@ Traverse == /\ pc = "traverse" /\ i <= Len(kept)
                /\ pren' = BumpAll(pren, Cat([j \in DOMAIN f.leaves |-> Prefixes(f.leaves[j][3])]))
                /\ sufn' = BumpAll(sufn, Cat([j \in DOMAIN f.leaves |-> Suffixes(f.leaves[j][3])]))
             /\ i' = i + 1 /\ UNCHANGED <<bank, pc, kept, nsamples, out>>
-Samples == /\ pc = "traverse" /\ i > Len(kept) /\ nsamples' = Len(kept) /\ pc' = "write"
+Samples == /\ ((pc = "traverse" /\ i > Len(kept)) \/ pc = "samples") /\ nsamples' = Len(kept) /\ pc' = "write"
            /\ UNCHANGED <<bank, kept, i, catn, wordn, seenn, unn, pren, sufn, out>>
 Write == /\ pc = "write" /\ pc' = "done"
          /\ LET tg == AtLeast(catn, CatCut) IN
-            out' = [target |-> tg, words |-> AtLeast(wordn, WordCut),
+            out' = IF Mode # "train" THEN [NoOut EXCEPT !.sents = [j \in DOMAIN kept |-> SentOf(kept[j])], !.conll = [j \in DOMAIN kept |-> RowsOf(kept[j])]] ELSE
+                   [target |-> tg, words |-> AtLeast(wordn, WordCut),
                     seen |-> [p \in {q \in DOMAIN seenn : q[1] \in DOMAIN tg /\ q[2] \in DOMAIN tg} |-> seenn[p]],
-                    unary |-> unn, prefixes |-> AtLeast(pren, AfixCut), suffixes |-> AtLeast(sufn, AfixCut)]
+                    unary |-> unn, prefixes |-> AtLeast(pren, AfixCut), suffixes |-> AtLeast(sufn, AfixCut),
+                    sents |-> [j \in DOMAIN kept |-> SentOf(kept[j])], conll |-> [j \in DOMAIN kept |-> RowsOf(kept[j])]]
          /\ UNCHANGED <<bank, kept, i, catn, wordn, seenn, unn, pren, sufn, nsamples>>
 Next == Load \/ Traverse \/ Samples \/ Write
 Spec == Init /\ [][Next]_vars /\ WF_vars(Next)
@@ -126,15 +149,19 @@ ExpAffix(b, cut, F(_)) == LET ls == Cat([j \in DOMAIN KeptOf(b) |-> KeptOf(b)[j]
                               as == Cat([j \in DOMAIN ls |-> F(ls[j][3])])
                               n(a) == Occ(as, a) + (IF a \in AfixReserved THEN cut ELSE 0)
                           IN [a \in {x \in Range(as) \cup AfixReserved : n(x) >= cut} |-> n(a)]
-Expected(b, ccut, wcut, acut) == [target |-> ExpTarget(b, ccut), words |-> ExpWords(b, wcut), seen |-> ExpSeen(b, ccut), unary |-> ExpUnary(b),
-                                  prefixes |-> ExpAffix(b, acut, Prefixes), suffixes |-> ExpAffix(b, acut, Suffixes)]
+Expected(b, ccut, wcut, acut, mode) ==
+  LET k == KeptIn(b, mode)
+      files == [sents |-> [j \in DOMAIN k |-> SentOf(k[j])], conll |-> [j \in DOMAIN k |-> RowsOf(k[j])]]
+  IN IF mode # "train" THEN [NoOut EXCEPT !.sents = files.sents, !.conll = files.conll]
+     ELSE [target |-> ExpTarget(b, ccut), words |-> ExpWords(b, wcut), seen |-> ExpSeen(b, ccut), unary |-> ExpUnary(b),
+           prefixes |-> ExpAffix(b, acut, Prefixes), suffixes |-> ExpAffix(b, acut, Suffixes), sents |-> files.sents, conll |-> files.conll]
 
 (* ---- properties ---- *)
-FilesAreTheCounts == pc = "done" => out = Expected(bank, CatCut, WordCut, AfixCut)
-OneSamplePerKeptTree == pc \in {"write", "done"} => nsamples = Cardinality({j \in DOMAIN bank : ~bank[j].failed})
-ReservedWordsAlwaysWritten == pc = "done" => Reserved \subseteq DOMAIN out.words
+FilesAreTheCounts == pc = "done" => out = Expected(bank, CatCut, WordCut, AfixCut, Mode)
+OneSamplePerKeptTree == pc \in {"write", "done"} => nsamples = Len(KeptIn(bank, Mode))
+ReservedWordsAlwaysWritten == (pc = "done" /\ Mode = "train") => Reserved \subseteq DOMAIN out.words
 SeenRulesOverTargetsOnly == pc = "done" => \A p \in DOMAIN out.seen : p[1] \in DOMAIN out.target /\ p[2] \in DOMAIN out.target
-AfixReservedAlwaysWritten == pc = "done" => AfixReserved \subseteq DOMAIN out.prefixes /\ AfixReserved \subseteq DOMAIN out.suffixes
+AfixReservedAlwaysWritten == (pc = "done" /\ Mode = "train") => AfixReserved \subseteq DOMAIN out.prefixes /\ AfixReserved \subseteq DOMAIN out.suffixes
 (* every leaf feeds exactly four prefix counters and four suffix counters (some of them the OORk ones) *)
 RECURSIVE SumOf(_, _)
 SumOf(f, S) == IF S = {} THEN 0 ELSE LET x == CHOOSE y \in S : TRUE IN f[x] + SumOf(f, S \ {x})
@@ -149,6 +176,11 @@ ShortWordsFeedTheMarkers == pc # "load" =>
                        short == Cardinality({j \in DOMAIN ls : Len(ls[j][3]) < k})
                        spelled == Cardinality({jm \in (DOMAIN ls) \X (1..4) : Len(ls[jm[1]][3]) >= jm[2] /\ Prefixes(ls[jm[1]][3])[jm[2]] = OOR(k)})
                    IN pren[OOR(k)] = AfixCut + short + spelled
+(* every block of the CoNLL file is a tree over its rows: exactly one root, every other word hangs (transitively) under it, and in *)
+(* a head-first tree no word depends on a word to its right                                                                        *)
+ConllBlocksAreHeadFirstTrees == pc = "done" => \A b \in DOMAIN out.conll :
+   LET rows == out.conll[b] IN /\ Cardinality({j \in DOMAIN rows : rows[j][7] = 0}) = 1
+                               /\ \A j \in DOMAIN rows : rows[j][1] = j /\ rows[j][7] < j /\ rows[j][2] = out.sents[b][j]
 CountsOnlyGrow == [][\A c \in DOMAIN catn : c \in DOMAIN catn' /\ catn'[c] >= catn[c]]_vars
 Terminates == <>(pc = "done")
 (* NOT a property of the code (TrainData_licensed.cfg expects TLC to refute it, the harness checks that it does): with a cut of 1 *)
